@@ -968,7 +968,20 @@ class Data(object):
             else:
                 raise AttributeError("Invalid attribute name '%s'" % key)
         else: #pass on to superclass
+            if key.startswith('_') and not (key.startswith('__') and key.endswith('__')):
+                # do not let a field shadow a private method such as _change
+                raise AttributeError("Invalid attribute name '%s'" % key)
             super(Data,self).__setattr__(key,value)
+
+    def __delattr__(self, key):
+        """Delete through the odict so its key order stays consistent
+           object.__delattr__ deletes from .__dict__ as a plain dict which
+           leaves the deleted key in the odict's ordered key list
+        """
+        if key in self.__dict__:
+            self.__dict__.__delitem__(key)
+        else:
+            super(Data,self).__delattr__(key)
 
     def __repr__(self):
         """
